@@ -43,8 +43,13 @@ def run(chk):
         "(always typed infallible; 91 of 203 today) constructs no message error (String/&str -> ExpressionError) in resolve-reachable stdlib code, unless "
         "P-VAR shows the error sits on a match arm that is unreachable for arguments inside the declared parameter kinds. Coercion errors "
         "(ValueError -> ExpressionError) are not counted: the call builder guarantees argument kinds for an infallible call. R02c: Compiler.abortable is set "
-        "before every Abort::new, Compiler.fallible is set on the abort_on_error edge of compile_function_call, and ProgramInfo copies both. Undecided: "
-        "Op::type_info's fallibility tables, pending_fallibilities bookkeeping (seeding agents found `{ to_int(.x); 6 } / 2` accepted), NaN exception.")
+        "before every Abort::new, Compiler.fallible is set on the abort_on_error edge of compile_function_call, and ProgramInfo copies both. R02d (operator "
+        "fallibility table): Op::type_info is evaluated by abstract interpretation of its MIR (P-ABS, rules/tinfo.py: operand type definitions as "
+        "(kind set, fallible) pairs, summaries for the TypeDef/Kind methods) for every arithmetic/comparison/`&&` opcode and every pair of operand kinds "
+        "from a 16-element family (9 exact kinds + unions); whenever the result is infallible, no (self variant, rhs variant) pair inside the operand kinds "
+        "may reach a type-mismatch or zero-division ValueError in the matching VrlValueArithmetic method (P-VAR over the method's MIR, coercion calls "
+        "included). Undecided: pending_fallibilities bookkeeping (seeding agents found `{ to_int(.x); 6 } / 2` accepted), the NaN exception the source "
+        "documents (float results that become NaN), operators applied to constants (resolve_constant is abstracted as None), `|` (Op::new admits only objects).")
     M = fmap.FMap(facts)
     rid = "R02a"
     chk.rule(rid, "always-infallible functions have no reachable message-error construction in resolve", floor=80)
@@ -151,3 +156,81 @@ def run(chk):
         if not ok:
             chk.violation(rid, b.file, COMPILE_FNCALL, "fallible flag not tied to abort_on_error",
                           "a `f!(..)` call can be compiled without ProgramInfo.fallible becoming true", detail=d)
+
+    rule_r02d(chk)
+
+
+OP_TYPE_INFO = "<compiler::expression::op::Op as compiler::expression::Expression>::type_info"
+OPC_METHOD = {"Add": "try_add", "Sub": "try_sub", "Mul": "try_mul", "Div": "try_div", "Gt": "try_gt", "Ge": "try_ge", "Lt": "try_lt", "Le": "try_le",
+              "And": "try_and"}
+KIND_OF = {"Bytes": "bytes", "Regex": "regex", "Integer": "integer", "Float": "float", "Boolean": "boolean", "Timestamp": "timestamp",
+           "Object": "object", "Array": "array", "Null": "null"}
+VAR_OF = {v: k for k, v in KIND_OF.items()}
+
+
+def kind_family():
+    singles = [frozenset([k]) for k in KIND_OF.values()]
+    unions = [frozenset(x) for x in (("bytes", "null"), ("integer", "float"), ("integer", "null"), ("float", "null"), ("boolean", "null"),
+                                      ("bytes", "integer"), tuple(KIND_OF.values()))]
+    return singles + unions
+
+
+def rule_r02d(chk):
+    import arith
+    import tinfo
+    facts = chk.facts
+    rid = "R02d"
+    chk.rule(rid, "Op::type_info infallible => the operator's method cannot return a type/zero error for any variant pair inside the operand kinds", floor=9)
+    if not facts.has(OP_TYPE_INFO):
+        chk.fail_closed(rid, "anchor not found: %s" % OP_TYPE_INFO)
+        return
+    fam = kind_family()
+    for opc, mname in OPC_METHOD.items():
+        if not facts.has(arith.method(mname)):
+            chk.fail_closed(rid, "anchor not found: %s" % arith.method(mname))
+            continue
+        errs, sites = arith.err_pairs(facts, mname)
+        if not sites:
+            chk.fail_closed(rid, "%s constructs no ValueError the rule recognises: the run-time side of the table could not be read" % mname)
+            continue
+        n_eval = n_inf = 0
+        bad = []
+        undecided = None
+        for kl in fam:
+            for kr in fam:
+                selfv = tinfo.Enum("compiler::expression::op::Op", None, {"lhs": tinfo.boxed(tinfo.Expr("lhs")), "rhs": tinfo.boxed(tinfo.Expr("rhs")),
+                                                                           "opcode": tinfo.Enum("parser::ast::Opcode", opc)})
+                try:
+                    td, it = tinfo.evaluate_type_info(facts, OP_TYPE_INFO, selfv, {"lhs": tinfo.TD(kl), "rhs": tinfo.TD(kr)})
+                except tinfo.Undecided as e:
+                    undecided = str(e)
+                    break
+                n_eval += 1
+                if td.fallible:
+                    continue
+                n_inf += 1
+                for a in sorted(kl):
+                    for c in sorted(kr):
+                        if opc == "And" and a == "null":
+                            continue       # `null && x` short-circuits before try_and (decided by C09 R09a)
+                        if (VAR_OF[a], VAR_OF[c]) in errs:
+                            bad.append((len(kl) + len(kr), sorted(kl), sorted(kr), a, c))
+            if undecided:
+                break
+        d = {"opcode": opc, "method": mname, "configurations_evaluated": n_eval, "typed_infallible": n_inf,
+             "runtime_ok_pairs": sorted("%s,%s" % (a, c) for a in arith.VARIANTS for c in arith.VARIANTS if (a, c) not in errs),
+             "mismatches": len(bad)}
+        if undecided:
+            chk.instance(rid, d, ok=None)
+            chk.fail_closed(rid, "Op::type_info could not be evaluated abstractly for `%s`: %s" % (opc, undecided))
+            continue
+        chk.instance(rid, d, ok=not bad)
+        if bad:
+            bad.sort()
+            _, kl, kr, a, c = bad[0]
+            d["first"] = {"lhs_kind": kl, "rhs_kind": kr, "failing_pair": [a, c]}
+            chk.violation(rid, "src/compiler/expression/op.rs", OP_TYPE_INFO, "opcode %s typed infallible for (%s, %s)" % (opc, "|".join(kl), "|".join(kr)),
+                          "`%s` with operand kinds (%s, %s) is typed infallible, but %s returns an error for (%s, %s): a program accepted without `!` "
+                          "fails at run time (%d operand-kind configurations affected)" % (
+                              {"Add": "+", "Sub": "-", "Mul": "*", "Div": "/", "Gt": ">", "Ge": ">=", "Lt": "<", "Le": "<=", "And": "&&"}[opc],
+                              "|".join(kl), "|".join(kr), mname, a, c, len(bad)), detail=d)
